@@ -153,3 +153,9 @@ package dns
 //@ extern (*math/big.Int).Bytes
 //@   fresh
 //@   pure
+
+//@ extern crypto/hmac.New
+//@   ensures ret0 != nil
+//@   pure
+//@ extern crypto/hmac.Equal
+//@   pure
